@@ -285,10 +285,12 @@ def run(ctx, rep):
         if t['k'] != 'switch':
             continue
         src = switch_source(W, bi)
-        if src and src['kind'] == 'call' and (src['callee'] or '').endswith('PartialEq::eq'):
+        if src and src['kind'] == 'call' and (src['callee'] or '').endswith(('PartialEq::eq', 'PartialEq::ne')):
             ga = src['term'].get('gargs') or []
             if ga and W.ty(ga[0]).get('path') == 'fatfs::fs::FatType':
-                for arm, tgts in (('eq', nonzero_targets(t)), ('ne', zero_targets(t))):
+                is_eq = src['callee'].endswith('::eq')
+                for arm, tgts in (('eq', nonzero_targets(t) if is_eq else zero_targets(t)),
+                                  ('ne', zero_targets(t) if is_eq else nonzero_targets(t))):
                     for tg in tgts:
                         for s in W.blocks[tg]['stmts']:
                             if s['k'] == 'assign' and s['rv']['k'] == 'use':
